@@ -1036,10 +1036,14 @@ def ref_check(case, out):
                 extra = sorted(set(rm) - set(em)) + sorted(rr - er)
                 what = ("position(s) %s of the port's tick did not arrive" % missing if missing else
                         "position(s) %s nobody wrote ticked" % extra if extra else "values differ")
+                if exp_r is None:
+                    what = "an empty tick of the port must not re-tick a valid collection, something else was delivered"
+                elif r is None:
+                    what = "nothing arrived"
                 bad.append("%s the reader's tick is not the producer port's tick of one step earlier: t=%d the reader saw %s, the port "
                            "(REF-selected: %s) ticked at t=%d with %s - %s"
-                           % (tag or ("[lost]" if missing else "[spurious]" if extra else "[value]"), t, fmt(kind, r), p["mode"], t - 1,
-                              fmt(kind, exp_r), what))
+                           % (tag or ("[lost]" if missing else "[spurious]" if (extra or exp_r is None) else "[value]"), t, fmt(kind, r),
+                              p["mode"], t - 1, fmt(kind, pending), what))
             if tag:
                 known_seen = True
             # go on from what the reader really holds (so that one loss is reported once, not in every later cycle)
@@ -1102,7 +1106,8 @@ def ref_check(case, out):
             if k == last:
                 feats.add("ref:port-tick-in-last-cycle(undelivered)")
         # ---- quiescence: a cycle runs only when the script does something or a delivery is due
-        exp_cyc = (sel is not None or a is not None or b is not None) or pending is not None
+        # (if_then_else is evaluated once at the start time: that cycle always runs)
+        exp_cyc = (sel is not None or a is not None or b is not None) or pending is not None or (k == 0 and p["mode"] == "sel")
         if cyc != exp_cyc:
             if cyc:
                 bad.append("[quiescence] the engine ran a cycle although nothing is due: t=%d" % t)
@@ -1202,13 +1207,15 @@ def gen_ref_case(rng, idx):
         valid[tgt] = True
         return w2s("set" if kind == "set" else "dict", mods, rems)
 
-    start = rng.choice(["both-then-select", "both-then-select", "select-first", "one-valid", "all-at-once", "late-b"])
+    start = rng.choice(["both-then-select", "both-then-select", "select-first", "one-valid", "all-at-once", "late-b", "idle-start"])
     if mode == "swc":
         start = rng.choice(["both-then-select", "all-at-once"])   # a switch_ onto a branch whose argument is not valid resets the output
     lines, cond = [], None
     for k in range(n):
         sel, wa, wb = None, False, False
-        if k == 0:
+        if k == 0 and start == "idle-start":
+            pass                                       # nothing at the start time; everything begins later
+        elif k == 0:
             if start == "both-then-select":
                 wa, wb = True, True
             elif start == "select-first":
